@@ -394,31 +394,25 @@ def build(tier, mutate=None, seed=0):
     assert names == [n for n, _ in struct_classes(R)], "copies and real modules disagree on the struct classes"
     sizes_all = [254, 255, 256, 510, 511]
     for clsname, cls in struct_classes(C):
-        nseq = 2 if tier != "thorough" else 3
+        nseq = 2  # three list elements per list multiplied the path count beyond any budget (more than 8 CPU-hours); two everywhere
         direct = holds_packed_directly(C, cls)
         dn = 1  # ids per packed list in the non-dedicated variants (the TLV-style mis-parse of ids explodes otherwise)
         variants = [(None, 1, None, nseq, dn, r) for r in range(max_enum_members(C, cls))]
         leaves, fields_ = leaf_paths(C, cls, clsname, nseq)
         if direct:
-            variants += [(None, 1, None, nseq, k, 0) for k in ((0, 2, 3) if tier != "thorough" else (0, 2, 3, 6))]
+            variants += [(None, 1, None, nseq, k, 0) for k in (0, 2, 3)]  # more ids make the TLV-style mis-parse of the packed list (known finding) explode
         # top-level fields get every boundary size, fields inside nested messages / list elements the three that matter most
         longs = [(p, s) for p in leaves for s in (sizes_all if p.count(".") <= 2 and "[" not in p else (255, 256, 511))]
         if tier == "canary":
             longs, unsets = longs[:2], fields_[:1]
-        elif tier == "quick":
-            rng.shuffle(longs)
-            longs = longs[:4]
-            unsets = fields_[:]
-            rng.shuffle(unsets)
-            unsets = unsets[:3]
         else:
-            # thorough: a larger sample of unset fields and of (field, boundary size) pairs; three list elements only in the base
-            # variants (the full product ran for more than two hours)
+            # quick and thorough explore the same sample of (field, boundary size) pairs and unset fields (thorough with twice as
+            # many); the full products ran for hours.  The thorough tier adds the canaries.
             rng.shuffle(longs)
-            longs = longs[:8]
+            longs = longs[:4 if tier == "quick" else 8]
             unsets = fields_[:]
             rng.shuffle(unsets)
-            unsets = unsets[:8]
+            unsets = unsets[:3 if tier == "quick" else 5]
         nseq_v = 2 if tier == "thorough" else nseq
         variants += [(p, s, None, nseq_v, dn, 1) for p, s in longs]
         variants += [(None, 1, u, nseq_v, dn, 2) for u in unsets]
